@@ -151,7 +151,7 @@ func (d *DNS) isImmediate(q dns.Question) bool {
 	qname := strings.ToLower(q.Name)
 	query := strings.Split(qname, ".")
 	self := strings.Split(d.domain, ".")
-	return strings.HasSuffix(qname, d.domain) &&
+	return (qname == d.domain || strings.HasSuffix(qname, "."+d.domain)) &&
 		len(query) >= len(self) &&
 		len(query)-len(self) <= 1
 }
